@@ -522,8 +522,23 @@ def gen_int_text(rng, ty, valid):
     return s
 
 
+def long_text(rng):
+    """long values with multi-byte characters at every alignment (length thresholds, char boundaries)."""
+    n = rng.choice([30, 60, 63, 64, 65, 66, 70, 127, 128, 130, 255, 260, 300, 1000])
+    out, size = [], 0
+    while size < n:
+        c = rng.choice(["a", "Z", "9", "é", "€", "😀", "ß", "日", "x", "-"])
+        out.append(c)
+        size += len(c.encode())
+    return "".join(out)
+
+
 def gen_text(rng, ty, valid=True):
     b = base(ty)
+    if not valid and rng.random() < 0.15:
+        return long_text(rng)          # not a number / bool / char, and long
+    if valid and not (INT_RE.match(b) or b in ("bool", "char")) and rng.random() < 0.06:
+        return long_text(rng)
     if INT_RE.match(b):
         return gen_int_text(rng, b, valid)
     if b == "bool":
